@@ -266,6 +266,37 @@ fn eval_det(t: &mut Toks) -> R<String> {
                 }
             })
         }
+        "lofseq" => {
+            // a sequence of k values on ONE prepared detector, against a fresh computation for every call:
+            // earlier calls must not influence later ones
+            let m = t.usize()?;
+            let mut ks = vec![];
+            for _ in 0..m {
+                ks.push(t.usize()?);
+            }
+            let g = t.geom()?;
+            let mp = MultiPoint(coords_of(&g).into_iter().map(Point).collect::<Vec<_>>());
+            let a = once(&|h| {
+                let pd = mp.prepared_detector();
+                for &k in &ks {
+                    let o = pd.outliers(k);
+                    h.u64(o.len() as u64);
+                    for v in o {
+                        h.f(v);
+                    }
+                }
+            });
+            let b = once(&|h| {
+                for &k in &ks {
+                    let o = mp.outliers(k);
+                    h.u64(o.len() as u64);
+                    for v in o {
+                        h.f(v);
+                    }
+                }
+            });
+            format!("{} {}", a, b)
+        }
         "convex" => {
             let g = t.geom()?;
             twice(&|h| h.poly(&g.convex_hull()))
@@ -711,10 +742,14 @@ fn gen_case(rng: &mut Rng, index: u64) -> String {
             let n = rng.range(1, 60) as usize;
             let pts = many_points(rng, n, k);
             let g = Geometry::MultiPoint(MultiPoint(pts.into_iter().map(Point).collect()));
-            if rng.chance(1, 2) {
-                format!("C20.det kconcave {} {}", rng.range(1, 8), proto::geom(&g))
-            } else {
-                format!("C20.det outliers {} {}", rng.range(1, 8), proto::geom(&g))
+            match rng.below(3) {
+                0 => format!("C20.det kconcave {} {}", rng.range(1, 8), proto::geom(&g)),
+                1 => format!("C20.det outliers {} {}", rng.range(1, 8), proto::geom(&g)),
+                _ => {
+                    let m = rng.range(2, 6);
+                    let ks: Vec<String> = (0..m).map(|_| rng.range(1, 8).to_string()).collect();
+                    format!("C20.det lofseq {} {} {}", m, ks.join(" "), proto::geom(&g))
+                }
             }
         }
         17 => {
